@@ -1,181 +1,10 @@
-// vh — correspondence harness: runs the real crewjam/saml implementation on
-// generated inputs and writes (input, observed output) cases as Gallina terms.
+// vh — correspondence harness for the pure codecs (C10, C11, C15).
 package main
 
-import (
-	"encoding/json"
-	"flag"
-	"fmt"
-	"math/rand"
-	"os"
-	"path/filepath"
-	"sort"
-	"strings"
-)
+import . "verifharness/internal/core"
 
-// Case is one correspondence case.
-type Case struct {
-	Idx   int               `json:"idx"`
-	Group string            `json:"group"`          // which case list / checker this belongs to
-	Key   map[string]string `json:"key,omitempty"`  // structured description (known-finding matching, histogram)
-	Input any               `json:"input"`          // human-readable input for replays
-	Obs   any               `json:"obs"`            // what the implementation did
-	Term  string            `json:"-"`              // Gallina term for the model side
-	// ImplSpecOK is the harness's own evaluation of the property's conclusion on
-	// the implementation's output where that needs the implementation again
-	// (e.g. a second decode); nil = not evaluated on the Go side.
-	ImplSpecOK *bool  `json:"impl_spec_ok,omitempty"`
-	Note       string `json:"note,omitempty"`
-	Trivial    bool   `json:"trivial,omitempty"` // counted as trivial in the evidence
-	Dedup      string `json:"-"`                 // distinctness key (defaults to Term)
-}
+func main() { Main() }
 
-// Group is a list of cases sharing one Coq checker.
-type Group struct {
-	Name    string
-	Imports []string // modules under Saml to import
-	Type    string   // Coq type of a case
-	Checker string   // Coq function : list <Type> -> list (Z*Z)  (idx-in-group, code) ; code bit0=disagree bit1=spec-fail
-	Cases   []*Case
-}
+func bptr(b bool) *bool { return Bptr(b) }
 
-type Ctx struct {
-	Prop   string
-	Tier   string
-	Seed   int64
-	Rng    *rand.Rand
-	Out    string
-	Groups map[string]*Group
-	Order  []string
-	Hist   map[string]int
-	N      int
-	Extra  map[string]any
-}
-
-func (c *Ctx) Thorough() bool { return c.Tier == "thorough" }
-
-func (c *Ctx) Group(name string, imports []string, typ, checker string) *Group {
-	if g, ok := c.Groups[name]; ok {
-		return g
-	}
-	g := &Group{Name: name, Imports: imports, Type: typ, Checker: checker}
-	c.Groups[name] = g
-	c.Order = append(c.Order, name)
-	return g
-}
-
-func (c *Ctx) Add(g *Group, cs *Case) {
-	cs.Idx = c.N
-	cs.Group = g.Name
-	c.N++
-	g.Cases = append(g.Cases, cs)
-}
-
-func (c *Ctx) Count(k string) { c.Hist[k]++ }
-
-func bptr(b bool) *bool { return &b }
-
-var props = map[string]func(*Ctx){}
-
-const shardSize = 400
-
-func main() {
-	if len(os.Args) < 2 {
-		fmt.Fprintln(os.Stderr, "usage: vh <property> [-tier quick|thorough] [-seed N] [-out dir]")
-		os.Exit(2)
-	}
-	prop := os.Args[1]
-	fs := flag.NewFlagSet("vh", flag.ExitOnError)
-	tier := fs.String("tier", "quick", "quick|thorough")
-	seed := fs.Int64("seed", 1, "seed")
-	out := fs.String("out", ".", "output dir")
-	_ = fs.Parse(os.Args[2:])
-	f, ok := props[prop]
-	if !ok {
-		fmt.Fprintln(os.Stderr, "unknown property", prop)
-		os.Exit(2)
-	}
-	ctx := &Ctx{Prop: prop, Tier: *tier, Seed: *seed, Rng: rand.New(rand.NewSource(*seed)), Out: *out,
-		Groups: map[string]*Group{}, Hist: map[string]int{}, Extra: map[string]any{}}
-	f(ctx)
-	if err := ctx.write(); err != nil {
-		fmt.Fprintln(os.Stderr, "write:", err)
-		os.Exit(2)
-	}
-}
-
-func (c *Ctx) write() error {
-	if err := os.MkdirAll(c.Out, 0o755); err != nil {
-		return err
-	}
-	// remove stale shards of this property
-	old, _ := filepath.Glob(filepath.Join(c.Out, "Cases_"+c.Prop+"_*"))
-	for _, f := range old {
-		os.Remove(f)
-	}
-	var shards []map[string]any
-	jl, err := os.Create(filepath.Join(c.Out, "cases_"+c.Prop+".jsonl"))
-	if err != nil {
-		return err
-	}
-	defer jl.Close()
-	enc := json.NewEncoder(jl)
-	distinct := map[string]bool{}
-	nontrivial := 0
-	for _, name := range c.Order {
-		g := c.Groups[name]
-		for i := 0; i < len(g.Cases); i += shardSize {
-			j := i + shardSize
-			if j > len(g.Cases) {
-				j = len(g.Cases)
-			}
-			mod := fmt.Sprintf("Cases_%s_%s_%d", c.Prop, g.Name, i/shardSize)
-			var sb strings.Builder
-			sb.WriteString("(* generated by vh; do not edit *)\n")
-			sb.WriteString("From Saml Require Import Base " + strings.Join(g.Imports, " ") + ".\n")
-			sb.WriteString("Definition cases : list (" + g.Type + ") := [\n")
-			idxs := []int{}
-			for k, cs := range g.Cases[i:j] {
-				if k > 0 {
-					sb.WriteString(";\n")
-				}
-				sb.WriteString("  " + cs.Term)
-				idxs = append(idxs, cs.Idx)
-			}
-			sb.WriteString("\n].\n")
-			sb.WriteString("Definition R := Eval vm_compute in (" + g.Checker + " cases).\nPrint R.\n")
-			if err := os.WriteFile(filepath.Join(c.Out, mod+".v"), []byte(sb.String()), 0o644); err != nil {
-				return err
-			}
-			shards = append(shards, map[string]any{"module": mod, "group": g.Name, "idxs": idxs})
-		}
-		for _, cs := range g.Cases {
-			if err := enc.Encode(cs); err != nil {
-				return err
-			}
-			d := cs.Dedup
-			if d == "" {
-				d = cs.Term
-			}
-			d = g.Name + "|" + d
-			if !distinct[d] {
-				distinct[d] = true
-				if !cs.Trivial {
-					nontrivial++
-				}
-			}
-		}
-	}
-	keys := make([]string, 0, len(c.Hist))
-	for k := range c.Hist {
-		keys = append(keys, k)
-	}
-	sort.Strings(keys)
-	meta := map[string]any{
-		"property": c.Prop, "tier": c.Tier, "seed": c.Seed, "evaluations": c.N,
-		"distinct_nontrivial": nontrivial, "distinct": len(distinct),
-		"histogram": c.Hist, "shards": shards, "extra": c.Extra,
-	}
-	b, _ := json.MarshalIndent(meta, "", " ")
-	return os.WriteFile(filepath.Join(c.Out, "meta_"+c.Prop+".json"), b, 0o644)
-}
+var props = Props
